@@ -505,7 +505,7 @@ fn main() {
                 let o = sql::check_c(&rt, &eng, &c, &mut model);
                 println!(
                     "sql   : {}\nimpl  : {}\nmodel : {}\nchunk pruned: {}\nrows DataFusion returns from the pruned chunk (row, known): {:?}",
-                    sql::to_sql(&c.e), o.impl_out, o.model_out, o.pruned, o.bad_rows
+                    c.sql(), o.impl_out, o.model_out, o.pruned, o.bad_rows
                 );
                 o.differs || !o.bad_rows.is_empty()
             }
